@@ -97,6 +97,17 @@ DERIVE = [
     ('iadd-to-empty', "(lambda x: x.__iadd__(a))(bitstring.BitArray())"), ('insert-into', "(lambda x: (x.insert(a, 0), x)[1])(bitstring.BitArray())"),
     ('overwrite-into', "(lambda x: (x.overwrite(a, 0), x)[1])(bitstring.BitArray(len(a)))"), ('setslice-into', "(lambda x: (x.__setitem__(slice(None), a), x)[1])(bitstring.BitArray('0b0'))"),
     ('replace-with', "(lambda x: (x.replace('0b1', a), x)[1])(bitstring.BitArray('0b1'))"),
+    # a string equal to a's own text meeting an EMPTY mutable operand (the result must not be the cached parse of that string)
+    ('str-radd-empty-stream', "(('0b' + a.bin) if len(a) else '') + bitstring.BitStream()"), ('str-radd-empty-array', "(('0b' + a.bin) if len(a) else '') + bitstring.BitArray()"),
+    ('empty-array-add-str', "bitstring.BitArray() + (('0b' + a.bin) if len(a) else '')"), ('hexstr-radd-empty-stream', "(('0x' + a.hex) if len(a) % 4 == 0 and len(a) else '') + bitstring.BitStream()"),
+    # an in-place operation on a mutable source that may REPLACE its store, then a derivation that trusts what the store says about itself
+    ('premut-ilshift-all-ctor', "(a.__ilshift__(len(a)) if hasattr(a, 'append') and len(a) else None, bitstring.{T}(a))[1]"),
+    ('premut-irshift-all-copy', "(a.__irshift__(len(a)) if hasattr(a, 'append') and len(a) else None, a.copy())[1]"),
+    ('premut-imul1-ctor', "(a.__imul__(1) if hasattr(a, 'append') else None, bitstring.{T}(a))[1]"), ('premut-iand-self-ctor', "(a.__iand__(a) if hasattr(a, 'append') and len(a) else None, bitstring.{T}(a))[1]"),
+    ('premut-clear-append-ctor', "(a.clear(), a.append('0b101'), bitstring.{T}(a))[2] if hasattr(a, 'append') else bitstring.{T}(a)"),
+    ('premut-bits-setter-copy', "(setattr(a, 'bits', '0b1101'), copy.copy(a))[1] if hasattr(a, 'append') else copy.copy(a)"),
+    ('premut-setslice-all-ctor', "(a.__setitem__(slice(None), '0b1101'), bitstring.{T}(a))[1] if hasattr(a, 'append') else bitstring.{T}(a)"),
+    ('premut-reverse-slice', "(a.reverse(), a[:])[1] if hasattr(a, 'append') else a[:]"), ('premut-ior-zeros-ctor', "(a.__ior__(bitstring.Bits(len(a))) if hasattr(a, 'append') and len(a) else None, bitstring.{T}(a))[1]"),
     ('lsb0-append', "LSB0(lambda: (lambda x: (x.append(a), x)[1])(bitstring.BitArray()))"), ('lsb0-prepend', "LSB0(lambda: (lambda x: (x.prepend(a), x)[1])(bitstring.BitArray()))"),
     ('lsb0-array', "LSB0(lambda: bitstring.Array('u2', a))"),
 ]
@@ -214,7 +225,7 @@ def histories(bs, acc, shard):
         dsrc = dtmpl.format(T=T)
         hops = [None]
         if len(bits) <= 8 or not q:
-            hops += [(n, t) for n, t in DERIVE if (n in core2 or not q) and '{T}' not in t] + [(n, t.format(T='BitArray')) for n, t in DERIVE if n in core2 and '{T}' in t]
+            hops += [(n, t) for n, t in DERIVE if (n in core2 or not q) and '{T}' not in t] + [(n + ':' + T2, t.format(T=T2)) for n, t in DERIVE if n in core2 and '{T}' in t for T2 in (('BitArray', 'Bits') if q else CLASSES)]
         for hop in hops:
             base = list(create) + [f"d = {dsrc}"]
             if hop is not None:
